@@ -1,10 +1,13 @@
 package main
 
 import (
+	"encoding/json"
 	"fmt"
 	"go/ast"
 	"reflect"
+	"sort"
 	"strings"
+	"time"
 
 	"github.com/dave/dst"
 )
@@ -111,24 +114,73 @@ func c13Leaf(t reflect.Type) reflect.Value {
 }
 
 func c13HandBuilt(c *Ctx) {
-	nodeT := reflect.TypeOf((*dst.Node)(nil)).Elem()
+	// the shapes and the order their children have to be visited in come from WalkSchema.tla (derived from
+	// the node description table); the wrong transcriptions are shown rejected first
+	cfg := func(v string) string {
+		return fmt.Sprintf("CONSTANT Variant = \"%s\"\nINIT Init\nNEXT Next\nINVARIANTS Complete Once OptionalAreOptional Emit\nCHECK_DEADLOCK FALSE\n", v)
+	}
+	for v, inv := range map[string]string{"value-needs-key": "Complete", "type-required": "OptionalAreOptional"} {
+		r, err := RunTLC(TLCRun{Module: "WalkSchema", Cfg: cfg(v), Workers: 1, Timeout: 10 * time.Minute})
+		if err != nil || r.Violated != inv {
+			c.Infra("TLC did not reject the " + v + " variant of WalkSchema: " + errText(r, err))
+			return
+		}
+	}
+	gen, err := RunTLC(TLCRun{Module: "WalkSchema", Cfg: cfg("schema"), Workers: 1, Timeout: 10 * time.Minute})
+	if err != nil || !gen.OK() {
+		c.Infra("TLC (WalkSchema) failed: " + errText(gen, err))
+		return
+	}
+	c.TLC(gen)
+	protos := map[string]reflect.Type{}
 	for _, proto := range c13NodeTypes {
-		rt := reflect.TypeOf(proto).Elem()
-		var single, lists []int
-		for i := 0; i < rt.NumField(); i++ {
-			f := rt.Field(i)
-			if rt.Name() == "File" && (f.Name == "Imports" || f.Name == "Unresolved") {
-				continue // not children: the traversal does not enter them
+		protos[reflect.TypeOf(proto).Elem().Name()] = reflect.TypeOf(proto).Elem()
+	}
+	shapes := gen.Payloads("BEH ")
+	if len(shapes) < 200 {
+		c.Infra(fmt.Sprintf("WalkSchema emitted %d shapes", len(shapes)))
+		return
+	}
+	seenType := map[string]bool{}
+	for _, raw := range shapes {
+		var shape struct {
+			Type    string   `json:"type"`
+			Present []string `json:"present"`
+			Order   []struct {
+				F    string `json:"f"`
+				List bool   `json:"list"`
+			} `json:"order"`
+		}
+		if json.Unmarshal([]byte(raw), &shape) != nil {
+			c.Infra("bad WalkSchema shape: " + raw)
+			return
+		}
+		rt, ok := protos[shape.Type]
+		if !ok {
+			c.Infra("WalkSchema names a node type the harness cannot build: " + shape.Type)
+			return
+		}
+		seenType[shape.Type] = true
+		var fields []int
+		for _, f := range shape.Present {
+			sf, ok := rt.FieldByName(f)
+			if !ok {
+				c.Infra("WalkSchema names a child the type does not have: " + shape.Type + "." + f)
+				return
 			}
-			switch {
-			case f.Type.Kind() == reflect.Slice && f.Type.Elem().Implements(nodeT):
-				lists = append(lists, i)
-			case (f.Type.Kind() == reflect.Ptr || f.Type.Kind() == reflect.Interface) && f.Type.Implements(nodeT):
-				single = append(single, i)
+			fields = append(fields, sf.Index[0])
+		}
+		sort.Ints(fields)
+		var specOrder []string
+		for _, o := range shape.Order {
+			if o.List {
+				specOrder = append(specOrder, o.F+"[0]", o.F+"[1]")
+			} else {
+				specOrder = append(specOrder, o.F)
 			}
 		}
-		fields := append(append([]int{}, single...), lists...)
-		for mask := 0; mask < 1<<uint(len(fields)); mask++ {
+		{
+			mask := 1<<uint(len(fields)) - 1
 			root := reflect.New(rt)
 			aroot := reflect.New(reflect.TypeOf(c13AstTypes[rt.Name()]).Elem())
 			want := map[dst.Node]string{}
@@ -209,6 +261,9 @@ func c13HandBuilt(c *Ctx) {
 				}
 				if len(got) > len(want)+1 && bad == "" {
 					bad = fmt.Sprintf("%d nodes are visited, the node has %d children", len(got), len(want))
+				}
+				if bad == "" && strings.Join(dseq, " ") != strings.Join(specOrder, " ") {
+					bad = fmt.Sprintf("the children are visited in the order %v, the node description table (WalkSchema.tla) gives %v", dseq, specOrder)
 				}
 				if bad == "" && strings.Join(dseq, " ") != strings.Join(aseq, " ") {
 					bad = fmt.Sprintf("the children are visited in the order %v, go/ast visits them in the order %v", dseq, aseq)
